@@ -1,7 +1,7 @@
 CONSTANTS
-  MaxLen = 7
+  MaxLen = 5
   Emit = TRUE
-  AllStrings = FALSE
+  AllStrings = TRUE
 SPECIFICATION Spec
 INVARIANTS UnderscoresOK ShapeOK EmitOK
 CHECK_DEADLOCK FALSE
